@@ -15,10 +15,16 @@ def sh(cmd, **k):
     return subprocess.run(cmd, shell=True, capture_output=True, text=True, **k)
 
 
-subprocess.run(["git", "-C", "/repo", "worktree", "remove", "--force", wt], capture_output=True)
-assert sh(f"git -C /repo worktree add -q --detach {wt} HEAD").returncode == 0
 res = {}
+if os.environ.get("CONFIRM_LOG"):  # finish from the JSON a previous run printed (the suite is not run again)
+    res = json.load(open(os.environ["CONFIRM_LOG"]))
+    tail = res["suite_tail"]
+    res["summary"] = (re.findall(r"(\d+ failed.*?passed.*?) in [\d.]+s", tail) or re.findall(r"(\d+ passed.*?) in [\d.]+s", tail) or ["?"])[-1]
+else:
+    subprocess.run(["git", "-C", "/repo", "worktree", "remove", "--force", wt], capture_output=True)
+    assert sh(f"git -C /repo worktree add -q --detach {wt} HEAD").returncode == 0
 try:
+  if not os.environ.get("CONFIRM_LOG"):
     env = dict(os.environ, PYTHONPATH=f"{wt}/src", PYTHONDONTWRITEBYTECODE="1")
     d0 = subprocess.run(["/venv/bin/python", f"{src}/demo.py", wt], env=env, capture_output=True, text=True, timeout=1800)
     res["demo_clean"] = d0.returncode
@@ -33,17 +39,25 @@ try:
     res["demo_patched_tail"] = (d1.stdout + d1.stderr)[-400:]
     imp = subprocess.run(["/venv/bin/python", "-c", "import resonaate; print(resonaate.__file__)"], env=env, capture_output=True, text=True)
     res["import"] = imp.stdout.strip()
-    t = subprocess.run(f"cd {wt} && /venv/bin/python -m pytest -ra -q -p no:cacheprovider --timeout=900 --continue-on-collection-errors 2>&1 | tail -25", shell=True, env=env,
+    t = subprocess.run(f"cd {wt} && /venv/bin/python -m pytest -ra -q -p no:cacheprovider --timeout=900 --continue-on-collection-errors --junitxml=/tmp/confirm_{name}.xml 2>&1 | tail -25", shell=True, env=env,
                        capture_output=True, text=True, timeout=3600)
     tail = t.stdout
     failed = re.findall(r"^(?:FAILED|ERROR) (\S+)", tail, re.M)
-    res["suite_tail"] = tail[-600:]
+    res["suite_tail"] = tail[-1500:]
     res["failed"] = failed
     res["new_failures"] = [f for f in failed if not any(b in f for b in BASE) and "test_config.py" not in f]
-    res["summary"] = (re.findall(r"^=+ (.*) in [\d.]+s", tail, re.M) or ["?"])[-1]
+    try:
+        import xml.etree.ElementTree as ET
+
+        ts = ET.parse(f"/tmp/confirm_{name}.xml").getroot()
+        ts = ts if ts.tag == "testsuite" else ts[0]
+        res["summary"] = f"{ts.get('tests')} tests, {ts.get('failures')} failures, {ts.get('errors')} errors, {ts.get('skipped')} skipped (junit)"
+        os.remove(f"/tmp/confirm_{name}.xml")
+    except Exception as e:  # noqa: BLE001
+        res["summary"] = f"(no junit: {e})"
 finally:
     subprocess.run(["git", "-C", "/repo", "worktree", "remove", "--force", wt], capture_output=True)
-ok = res.get("demo_clean") == 0 and res.get("demo_patched") == 1 and res.get("only_src") and res.get("applies") and not res.get("new_failures") and "passed" in res.get("summary", "")
+ok = res.get("demo_clean") == 0 and res.get("demo_patched") == 1 and res.get("only_src") and res.get("applies") and not res.get("new_failures") and ("short test summary" in res.get("suite_tail", "") or os.environ.get("CONFIRM_LOG"))
 res["confirmed"] = bool(ok)
 print(json.dumps(res, indent=1))
 if ok:
